@@ -50,7 +50,7 @@ def build(case, labels=None):
                 kw["roots"] = [None if r is None else (r // w, r % w) for r in case["roots"]]
             graph.division_connected(s, d, R, **kw)
             return s, list(d)
-        g = gcheck.make_graph(case["n"], case["edges"])
+        g = gcheck.make_graph(case["n"], case["edges"], case.get("grown"))
         if form == "array1d":
             d = s.int_array(case["n"], 0, R - 1)
             graph.division_connected(s, d, R, g, **kw)
@@ -144,6 +144,19 @@ def scale_cases(tier):
                 out.append({"form": "grid", "shape": [h, w], "R": R, "roots": None, "allow_empty": allow_empty, "prim": prim, "labelings": labelings})
         out.append({"form": "array1d", "n": h * w, "edges": graphref.orient(graphref.grid_edges(h, w), 3), "R": R, "roots": [order[0][0] * w + order[0][1]] + [None] * (R - 1),
                     "allow_empty": False, "prim": False, "labelings": labelings})
+    for n in ((300,) if tier == "quick" else (257, 258, 300, 520)):
+        path = [(i, i + 1) for i in range(n - 1)]
+        halves = [0 if i < n // 2 else 1 for i in range(n)]
+        crossed = list(halves)
+        crossed[5] = 1  # a piece of region 1 cut off by region 0
+        for roots in (None, [0, n - 1], [n // 2 - 1, n // 2], [None, n - 1]):
+            for allow_empty in (False, True):
+                out.append({"form": "array1d", "n": n, "edges": path, "R": 2, "roots": roots, "allow_empty": allow_empty, "prim": False, "labelings": [halves, crossed, [0] * n]})
+        out.append({"form": "array1d", "n": n, "edges": path, "R": 2, "roots": [0, n - 1], "allow_empty": False, "prim": True, "labelings": [halves, crossed]})
+    for k in ((17,) if tier == "quick" else (17, 23)):
+        halves = [0 if y < k // 2 else 1 for y in range(k) for x in range(k)]
+        for roots in (None, [0, k * k - 1], [k * k - 1, 0]):
+            out.append({"form": "grid", "shape": [k, k], "R": 2, "roots": roots, "allow_empty": False, "prim": False, "labelings": [halves, [1 - v for v in halves]]})
     return out
 
 
@@ -217,6 +230,11 @@ def prepare(tier):
     global _CASES
     base_cases = cases_for(tier)
     used = [dict(c, used=True) for c in base_cases[:: (7 if tier == "quick" else 3)] if _small(c)]
+    # Graph objects with a history: some edges added only after the object has been used by other constraints
+    for c in base_cases[:: (5 if tier == "quick" else 2)]:
+        if "edges" in c and "shape" not in c and 2 <= len(c["edges"]) <= 5 and c.get("n", 9) <= 4:
+            used.append(dict(c, grown=1))
+            used.append(dict(c, grown=len(c["edges"]) - 1))
     _CASES = base_cases + used + scale_cases(tier)
     return _CASES
 
@@ -250,7 +268,7 @@ def main(tier, seed, only=None):
         "exploration",
         "all labelled simple graphs n<=%d%s, grids with <= %d cells; num_regions 1..%d; ALL labelings in {0..R-1}^n; roots: None, all "
         "lists over {None}+vertices for n<=3,R<=2, otherwise first/last/identity/reversed lists ((y,x) tuples on grids); "
-        "allow_empty_group off/on; auxiliary and native encodings; division as IntArray1D / list / IntArray2D / int literals.  Scale family (not exhaustive): on boards up to 5x5 (thorough 6x5, 1x20) the serpentine "
+        "allow_empty_group off/on; auxiliary and native encodings; division as IntArray1D / list / IntArray2D / int literals.  Scale family (not exhaustive): a 300-vertex path (thorough 520) and the 17x17 grid with roots at both ends / corners; on boards up to 5x5 (thorough 6x5, 1x20) the serpentine "
         "corridor as one region with every leftover strip its own region, plus the variants with two strips sharing a label and with the corridor cut.  "
         "Oracle: each label class connected, every label used unless allow_empty, roots carry their position's label."
         % (4 if tier == "quick" else 5, "" if tier == "quick" else " (n=5: 4-6 edges, plain configuration)", 6 if tier == "quick" else 8, 3 if tier == "quick" else 4),
